@@ -9,6 +9,7 @@ carries
           operands have not been written since (killed by writes)
 Tokens are set/cleared by rule-supplied events attached to CFG elements.
 """
+import re
 from .callgraph import node_writes
 from .program import plain
 
@@ -60,8 +61,9 @@ def _merge_states(a, b):
 class CondNorm:
     """Decomposition and canonical keys of branch conditions of one function."""
 
-    def __init__(self, fn):
+    def __init__(self, fn, prog=None):
         self.fn = fn
+        self.prog = prog
         self.key_node = {}
         self.key_vars = {}
         self._single_init = None
@@ -84,6 +86,90 @@ class CondNorm:
             self._single_init = {d: n for d, n in inits.items() if d not in written}
         return self._single_init
 
+    _PURE = {"end", "cend", "begin", "cbegin", "size", "length", "empty", "has_value", "get", "value", "at", "count", "contains",
+             "find", "c_str", "data", "front", "back", "first", "second"}
+
+    def hoisted(self):
+        """local decl -> init node, for locals that merely name a pure expression over state this function never writes
+        (`const size_t n = v.size();`): a condition over such a local is the same condition over its initialiser."""
+        if getattr(self, "_hoisted", None) is None:
+            f = self.fn
+            written = set()
+            for i in range(len(f.nodes)):
+                if f.nodes[i]["k"] != "decl":
+                    written |= set(node_writes(f, i))
+            out = {}
+            cands = dict(self.single_init())
+            # a reference bound to such an expression names it just the same
+            for i in f.all("decl"):
+                for v in f.nodes[i].get("vars", []):
+                    if "init" in v and v.get("isref") and "const" in v.get("type", ""):
+                        cands.setdefault(v["decl"], v["init"])
+            for d, init in cands.items():
+                if init is None or init < 0:
+                    continue
+                ok = True
+                for x in f.walk(init):
+                    n = f.nodes[x]
+                    if n["k"] in ("lambda", "construct", "new", "throw"):
+                        ok = False
+                    elif n["k"] == "call" and not (n.get("cname") in self._PURE or (n.get("op") and n.get("op") not in ("()", "=", "+=", "-=", "++", "--", "<<", ">>"))
+                                                   or self._plain_getter(n)):
+                        ok = False
+                    elif n["k"] in ("bin", "un") and n.get("op") in ("=", "+=", "-=", "*=", "/=", "++", "--"):
+                        ok = False
+                    t = f.var_token(x)
+                    if t and (t in written or (t.startswith("F:") and not f.d.get("const"))):
+                        ok = False
+                    if not ok:
+                        break
+                top = f.nodes[f.strip(init)]
+                if ok and top["k"] not in ("lit",):
+                    out[d] = init
+            self._hoisted = out
+        return self._hoisted
+
+    def _plain_getter(self, n):
+        """call of a const member function of this program whose body is `return <field>;`"""
+        P = self.prog
+        if P is None or not n.get("cusr"):
+            return False
+        hs = [P.fns[u] for u in P.resolve(n["cusr"]) if u in P.fns]
+        if len(hs) != 1 or not hs[0].d.get("const"):
+            return False
+        h = hs[0]
+        rets = [m for m in h.nodes if m["k"] == "return"]
+        if len(rets) != 1 or "val" not in rets[0] or any(m["k"] == "call" for m in h.nodes):
+            return False
+        return h.nodes[h.strip(rets[0]["val"])]["k"] == "member"
+
+    def key_hoisted(self, i):
+        """key of condition i with hoisted locals replaced by their initialisers, or None when there is nothing to replace."""
+        f = self.fn
+        h = self.hoisted()
+        if not h:
+            return None
+        used = [f.nodes[x].get("decl") for x in f.walk(i) if f.nodes[x]["k"] == "ref" and f.nodes[x].get("decl") in h]
+        if not used:
+            return None
+        depth = [0]
+
+        def cb(n):
+            d = n.get("decl")
+            if d in h and depth[0] < 4:
+                depth[0] += 1
+                try:
+                    return f.text(h[d], 0, cb)
+                finally:
+                    depth[0] -= 1
+            return None
+        k, flip = self.key(i, cb=cb)
+        vs = set(self.key_vars.get(k, ()))
+        for d in used:
+            vs |= self.vars_of(h[d])
+        self.key_vars[k] = frozenset(vs)
+        return k, flip
+
     def vars_of(self, i):
         f = self.fn
         out = set()
@@ -93,8 +179,14 @@ class CondNorm:
                 out.add(t)
         return frozenset(out)
 
-    def key(self, i):
+    def key(self, i, cb=None):
         """Canonical (key, flip) of an atomic condition; flip says polarity is inverted."""
+        f = self.fn
+        if cb is not None:
+            return self._key(i, lambda x: f.text(x, 0, cb))
+        return self._key(i, f.text)
+
+    def _key(self, i, T):
         f = self.fn
         i = f.strip(i)
         n = f.nodes[i]
@@ -109,7 +201,7 @@ class CondNorm:
             elif len(n.get("args", [])) == 2:
                 op, a, b = n["op"], n["args"][0], n["args"][1]
         if op:
-            ta, tb = f.text(a), f.text(b)
+            ta, tb = T(a), T(b)
             if op == ">=":
                 op, flip = "<", True
             elif op == "<=":
@@ -122,7 +214,7 @@ class CondNorm:
                 ta, tb = tb, ta
             k = "(%s %s %s)" % (ta, op, tb)
         else:
-            k = f.text(i)
+            k = T(i)
         if k not in self.key_node:
             self.key_node[k] = i
             self.key_vars[k] = self.vars_of(i)
@@ -198,7 +290,7 @@ class Flow:
         # when a path takes that edge (never killed by later writes)
         self.edge_tokens = edge_tokens
         self.split = split      # predicate on condition keys to partition on
-        self.cn = CondNorm(fn)
+        self.cn = CondNorm(fn, prog)
         self.cut = set(cut)
         self.ev = {}
         for k, v in (events or {}).items():
@@ -369,6 +461,98 @@ class Flow:
                         full = f.strip(sn["c"])
                         if full != f.strip(t["cond"]):
                             facts = facts + [x for x in self.cn.decompose(full, pol) if x not in facts]
+                # hoisted locals: `const size_t n = v.size(); if (i < n)` states (i < v.size())
+                for k_, p_ in list(facts):
+                    if not isinstance(p_, bool):
+                        continue
+                    node_ = self.cn.key_node.get(k_)
+                    if node_ is None:
+                        continue
+                    if f.nodes[f.strip(node_)]["k"] == "ref":
+                        continue        # a bare boolean local: decompose() already looked through it
+                    kh = self.cn.key_hoisted(node_)
+                    if kh is not None:
+                        k0, fl0 = self.cn.key(node_)
+                        if k0 == k_ and (kh[0], p_) not in facts:
+                            facts = facts + [(kh[0], p_)]
+                # an if-chain over an enumeration / character is the same table as a switch: X == CONST on its true edge is
+                # 'case:CONST' of scrutinee X (and 'not:CONST' on the false edge), so rules written for one spelling see the other
+                extra = []
+                kv_ = self.cn.key_vars
+
+                def add_(src, k2, p2):
+                    # a derived fact dies with the fact it was derived from
+                    extra.append((k2, p2))
+                    kv_[k2] = frozenset(kv_.get(k2, frozenset()) | kv_.get(src, frozenset()))
+                for k_, p_ in facts:
+                    if not isinstance(p_, bool):
+                        continue
+                    node_ = self.cn.key_node.get(k_)
+                    if node_ is None:
+                        continue
+                    nn_ = f.nodes[f.strip(node_)]
+                    if nn_["k"] == "bin" and nn_.get("op") in ("==", "!="):
+                        sides = (nn_["l"], nn_["r"])
+                    elif nn_["k"] == "call" and nn_.get("op") in ("==", "!=") and len(nn_.get("args", [])) == 2:
+                        sides = (nn_["args"][0], nn_["args"][1])
+                    else:
+                        continue
+                    eq = p_        # decompose() already canonicalised a != b into (a == b, flipped polarity)
+                    for x_, y_ in (sides, sides[::-1]):
+                        c_ = f.nodes[f.strip(y_)]
+                        cname = None
+                        if c_["k"] == "ref" and c_.get("dk") == "enumconst":
+                            cname = c_["name"]
+                        elif c_["k"] == "lit" and c_.get("lk") in ("char", "int") and f.nodes[f.strip(x_)]["k"] != "lit":
+                            cname = str(c_.get("v"))
+                        if cname is None:
+                            continue
+                        kx, _ = self.cn.key(x_)
+                        extra.append((kx, ("case:" if eq else "not:") + cname))
+                        break
+                # emptiness tests in all their spellings: c.size() (as a truth value), c.size() == 0, c.size() > 0, c.empty()
+                for k_, p_ in list(facts):
+                    if not isinstance(p_, bool) or not isinstance(k_, str):
+                        continue
+                    m_ = _SIZE_TRUTH.match(k_)
+                    if m_:
+                        add_(k_, m_.group(1) + ".empty()", not p_)
+                        continue
+                    m_ = _SIZE_ZERO.match(k_)
+                    if m_:
+                        c_ = m_.group(1) or m_.group(2)
+                        add_(k_, c_ + ".empty()", p_); add_(k_, c_ + ".size()", not p_)
+                        continue
+                    m_ = _SIZE_POS.match(k_)
+                    if m_:
+                        c_ = m_.group(1) or m_.group(2)
+                        add_(k_, c_ + ".empty()", not p_); add_(k_, c_ + ".size()", p_)
+                        continue
+                    m_ = _EMPTY.match(k_)
+                    if m_:
+                        add_(k_, m_.group(1) + ".size()", not p_)
+                # the two spellings of reading an optional-like value used as a truth value: *x and x.value()
+                for k_, p_ in list(facts):
+                    if not isinstance(p_, bool) or not isinstance(k_, str):
+                        continue
+                    m_ = re.match(r"^([A-Za-z_][\w.>-]*)\.value\(\)$", k_)
+                    if m_:
+                        add_(k_, "*" + m_.group(1), p_)
+                        continue
+                    m_ = re.match(r"^\*([A-Za-z_][\w.>-]*)$", k_)
+                    if m_:
+                        add_(k_, m_.group(1) + ".value()", p_)
+                # predicate helpers: a condition that is a call of a one-line 'return <expr>;' function of this program contributes the
+                # facts of that expression with the parameters replaced by the call's arguments
+                for k_, p_ in list(facts):
+                    if not isinstance(p_, bool):
+                        continue
+                    node_ = self.cn.key_node.get(k_)
+                    if node_ is None:
+                        continue
+                    for k2_, p2_ in self._helper_facts(node_, p_):
+                        add_(k_, k2_, p2_)
+                facts = facts + [e_ for e_ in extra if e_ not in facts]
             elif t["cls"] == "SwitchStmt":
                 s = blk["succ"][j]
                 tgt = s if isinstance(s, int) else None
@@ -380,6 +564,37 @@ class Flow:
                     facts = [(k, "default")]
         self._edge_facts[key] = facts
         return facts
+
+    def _helper_facts(self, node, pol):
+        f = self.fn
+        n = f.nodes[f.strip(node)]
+        if n["k"] != "call" or not n.get("cusr") or "op" in n:
+            return []
+        hs = [self.prog.fns[u] for u in self.prog.resolve(n["cusr"]) if u in self.prog.fns]
+        if len(hs) != 1:
+            return []
+        h = hs[0]
+        rets = [i for i, m in enumerate(h.nodes) if m["k"] == "return" and "val" in m]
+        if len(rets) != 1 or len(h.cfg) > 16 or any(m["k"] in ("decl", "if", "for", "while", "switch") for m in h.nodes):
+            return []
+        args = n.get("args", [])
+        if len(args) != len(h.params):
+            return []
+        hcn = CondNorm(h)
+        out = []
+        try:
+            sub = hcn.decompose(h.nodes[rets[0]]["val"], pol)
+        except Exception:
+            return []
+        names = {p["name"]: f.text(a) for p, a in zip(h.params, args) if p.get("name")}
+        for k2, p2 in sub:
+            if not isinstance(k2, str):
+                continue
+            t = k2
+            for pn, at in names.items():
+                t = re.sub(r"(?<![\w.>])%s(?![\w(])" % re.escape(pn), at.replace("\\", "\\\\"), t)
+            out.append((t, p2))
+        return out
 
     def _edge_transfer(self, b, j, parts):
         facts = self.edge_facts(b, j)
@@ -561,6 +776,12 @@ class Flow:
                     kind, node = "throw", n
             res.append((kind, node, bid, self.OUT[bid]))
         return res
+
+
+_SIZE_TRUTH = re.compile(r"^(.+)\.(?:size|length)\(\)$")
+_SIZE_ZERO = re.compile(r"^\(0 == (.+)\.(?:size|length)\(\)\)$|^\((.+)\.(?:size|length)\(\) == 0\)$")
+_SIZE_POS = re.compile(r"^\(0 < (.+)\.(?:size|length)\(\)\)$|^\((.+)\.(?:size|length)\(\) > 0\)$")
+_EMPTY = re.compile(r"^(.+)\.empty\(\)$")
 
 
 def dominators(fn):
